@@ -24,16 +24,26 @@ def blockDiagOfBaseProduct (ba bb : List Nat) : Except Err (List Nat) :=
     | some s => .ok s
     | none => .error .shape
 
-/-- `BlockDiagLinearOperator.matmul(other : BlockDiagLinearOperator)` as it is: the block-wise shortcut is taken iff the two
-base shapes are EQUAL (`self.base_linear_op.shape == other.base_linear_op.shape`); every other pair goes to the base guard on
-the operator shapes. -/
+/-- `BlockDiagLinearOperator.matmul(other : BlockDiagLinearOperator)` as it is (since 53611b1): `_matmul_broadcast_shape` on the
+operator shapes FIRST; then the block-wise shortcut iff the two base shapes are EQUAL
+(`self.base_linear_op.shape == other.base_linear_op.shape`), every other pair becomes a MatmulLinearOperator of the guard's shape. -/
 def blockDiagPairMatmul (ba bb : List Nat) : Except Err (List Nat) :=
+  match blockDiagShape ba, blockDiagShape bb with
+  | some a, some b =>
+    match matmulBroadcastShape a b with
+    | .error e => .error e
+    | .ok g => if ba = bb then blockDiagOfBaseProduct ba bb else .ok g
+  | _, _ => .error .index
+
+/-- the PREVIOUS code (before 53611b1): the shortcut was tried before any guard; only pairs that did not take it met the base
+guard.  Kept as a statement about the previous code and as the reference for the weakened-condition counterexample. -/
+def blockDiagPairMatmulUnguarded (ba bb : List Nat) : Except Err (List Nat) :=
   match blockDiagShape ba, blockDiagShape bb with
   | some a, some b => if ba = bb then blockDiagOfBaseProduct ba bb else matmulBroadcastShape a b
   | _, _ => .error .index
 
-/-- the same with the condition weakened to "same block size" (`shape[-2:]` of the bases equal): what a change that only
-compares the blocks would run.  Kept for the counterexample. -/
+/-- the previous (unguarded) structure with the condition weakened to "same block size" (`shape[-2:]` of the bases equal): what a
+change that only compares the blocks would have run before 53611b1.  Kept for the counterexample. -/
 def blockDiagPairMatmulLoose (ba bb : List Nat) : Except Err (List Nat) :=
   match blockDiagShape ba, blockDiagShape bb with
   | some a, some b =>
